@@ -1219,6 +1219,39 @@ theorem trans_C17_provisionTail_v1 (ph : Int) (ps : List Bool) (count : Nat) (e 
     v1_sr_startHead ⟨(v1_sr_provisionTail { phase := ph, partitions := ps } count e).1.phase⟩ = "" := by
   simp [v1_sr_provisionTail, v1_sr_startHead]
 
+/-! ### the whole of v2 `Enqueue` -/
+
+/-- v2 `Enqueue`, translated from its first to its last statement (the interface getters and the buffer's answer are
+inputs): a rejected operation - by one of the four admission checks, in the model's order - changes nothing and gets
+exactly that error; an admitted one the buffer refuses changes nothing either and gets the buffer's error; an
+accepted one adds exactly its cost to the demand (C03, C14, C15, for every operation, limiter and demand) -/
+theorem trans_C03_C14_C15_Enqueue_v2 (rl op w : Bool) (t cost maxCap maxAtt att : Nat) (e : String)
+    (h : t + cost < 4294967296) :
+    v2_Enqueue { ratelimiter := rl, target := t } op w cost maxCap maxAtt att e =
+      (match validate { hasOp := op, hasWatcher := w, limited := rl, maxCap := maxCap, cost := cost,
+                        maxAttempts := maxAtt, attempt := att } with
+       | some err => ({ ratelimiter := rl, target := t }, errTag (some err))
+       | none => if e = "" then ({ ratelimiter := rl, target := ((t + cost : Nat) : Int) }, "")
+                 else ({ ratelimiter := rl, target := t }, e)) := by
+  have hadd := trans_C03_C14_incTarget_add_v2 t cost h
+  have hsub : v2_incTarget { target := (t : Int) + (cost : Int) } (-(cost : Int)) = { target := (t : Int) } := by
+    have := trans_C03_C11_incTarget_sub_v2 (t + cost) cost (by omega) (by omega)
+    simp only [decTarget] at this
+    have e1 : (t + cost - cost : Nat) = t := by omega
+    have e2 : ((t + cost : Nat) : Int) = (t : Int) + (cost : Int) := by omega
+    rw [e2] at this
+    rw [this, e1]
+  have hadd' : v2_incTarget { target := (t : Int) } (cost : Int) = { target := (t : Int) + (cost : Int) } := by
+    have e2 : ((t + cost : Nat) : Int) = (t : Int) + (cost : Int) := by omega
+    rw [hadd, e2]
+  by_cases he : e = ""
+  · cases op <;> cases w <;> cases rl <;>
+      simp [v2_Enqueue, validate, errTag, hadd', hsub, he] <;> repeat' split
+    all_goals (first | rfl | omega | simp_all [errTag] | (exfalso; simp_all; omega))
+  · cases op <;> cases w <;> cases rl <;>
+      simp [v2_Enqueue, validate, errTag, hadd', hsub, he] <;> repeat' split
+    all_goals (first | rfl | omega | simp_all [errTag] | (exfalso; simp_all; omega))
+
 /-! ### non-vacuity: the translated functions on concrete values (also a readable trace of what they compute) -/
 
 example : v2_incTarget ⟨7⟩ 5 = ⟨12⟩ ∧ v2_incTarget ⟨7⟩ (-5) = ⟨2⟩ ∧ v2_incTarget ⟨7⟩ (-9) = ⟨0⟩ ∧ v2_incTarget ⟨7⟩ 0 = ⟨7⟩ := by decide
